@@ -118,6 +118,9 @@ def stepLine (s : St) (line : String) : St × String :=
   | ["q", "lookup", i] => match i.toNat? with
       | some i => (s, showAgent i (lookup s.r i))
       | none => bad s
+  | ["q", "lookupf", i] => match i.toNat? with
+      | some i => (s, showAgent i (lookup s.r i))
+      | none => bad s
   | ["q", "ids", t] => match t.toNat? with
       | some t => (s, s!"ids{t}=" ++ showList (agentIdsE s.r t))
       | none => bad s
